@@ -188,12 +188,13 @@ fn robust(c: &Call, base: &Out<Ans<i64>>, size: usize) -> Option<String> {
         .or_else(|| if small { variant::<F32>(c, base, true, true) } else { None })
         .or_else(|| if small { variant::<Usize>(c, base, true, true) } else { None })
         .or_else(|| if small { variant::<Str>(c, base, true, true) } else { None })
-        // odd layouts: ONE of the three in turn — up to 600 elements on both receivers, above that on the plain receiver (huge
-        // results: on every second case, the 32-byte one on every 12th)
+        // odd layouts: ONE of the three in turn — up to 600 elements on both receivers, above that on the plain receiver (the 32-byte
+        // one on every sixth case; results above 20 000 elements: on every fourth case, the 32-byte one on every 24th)
         .or_else(|| {
             let turn = LAYOUT_ROT.fetch_add(1, Ordering::Relaxed);
-            if huge { match turn % 12 { 0 | 4 | 8 => variant::<L12>(c, base, true, false), 2 | 6 | 10 => variant::<L3>(c, base, true, false), 5 => variant::<L32>(c, base, true, false), _ => None } }
-            else { match turn % 3 { 0 => variant::<L12>(c, base, true, small), 1 => variant::<L3>(c, base, true, small), _ => variant::<L32>(c, base, true, small) } }
+            if huge { match turn % 24 { 0 | 8 | 16 => variant::<L12>(c, base, true, false), 4 | 12 | 20 => variant::<L3>(c, base, true, false), 10 => variant::<L32>(c, base, true, false), _ => None } }
+            else if small { match turn % 3 { 0 => variant::<L12>(c, base, true, true), 1 => variant::<L3>(c, base, true, true), _ => variant::<L32>(c, base, true, true) } }
+            else { match turn % 6 { 0 | 3 | 5 => variant::<L12>(c, base, true, false), 1 | 4 => variant::<L3>(c, base, true, false), _ => variant::<L32>(c, base, true, false) } }
         })
 }
 
@@ -1341,6 +1342,6 @@ fn nontrivial(op: &str, args: &[&str]) -> bool {
 }
 
 fn main() {
-    harness_main(Spec { prop: "C03", gen, exec, nontrivial, hang_secs: 20,
-        rule: "exhaustive: all ordered pairs of shapes rank<=3 len<=3 (39^2) for broadcast, zip, broadcast_to (source,target) and 2-lists of broadcast_arrays; triples: 4000 sampled (quick) / all 39^3 (thorough); stretch targets up to rank 6; seeded random rank<=4 len<=5 mostly-compatible pairs/triples; zero-length shapes (refused on aligned axes, accepted as added leading target axes). The crate-internal helpers broadcast_h2 / broadcast_h3 (ops h2 / h3) are observed through the public pure lifts `multiply` (string x count) and `ljust` (string x width x fill char) with per-position-recoverable operands, so the result text gives back the two / three stretched operands: all ordered pairs rank<=3 len<=3 for h2; triples: every ordered pair with a sampled third operand in a sampled position + 1500 sampled (quick) / all 39^3 (thorough); rank-0 operands; random rank<=4 len<=5. Tag arrays (distinct integers; k-th operand offset 1000k). Robustness streams: big targets (lib big_shapes, every axis length 7..17 in leading/inner/trailing position, targets above 4096 elements of rank 1..6 such as [70,70], [3,41,41], [65,64], [4097], [8192]; seeded random targets of 300..6000 elements, thorough ..12000) x every source with one axis made a unit axis / only one axis kept / leading axes dropped / the one-element array, complementary unit-axis pairs in both orders, 2- and 3-lists, an added leading axis on the big array, the equal-count reshape arm and a non-stretchable neighbour, for broadcast_to, broadcast, zip, broadcast_arrays; h2 / h3 on targets above 4096 elements; every ordered pair of 13 zero-length shapes and 9 small ones (at least one zero-length) for all six ops; value-class sources (every 0/1 pattern of up to 4 elements = -0.0/+0.0 under the f64 image, mixtures with NaN, subnormals, 2^53+2). EVERY broadcast / zip / broadcast_to / broadcast_arrays case is executed on the plain Array<i64> receiver (the compared answer), a second time, on the Result receiver (Ok(array).broadcast / .broadcast_to, <Result<..>>::broadcast_arrays), and on the u8, bool and two f64 images (tag 0 = -0.0; value classes mod 8; bit-wise; pairs: both components separately) - results of up to 600 elements also i8, u8 near 255, i64 beyond 2^53, u16, i32, f32, usize, String, all on both receivers; any divergence fails the case. PART 2: hidden state - `seq` lines (several calls on one thread, each compared with the model): shape pairs colliding under h*m+dim for m = 31, 33, 37, 131, 257 (lib collision_shape_pairs + [2,1]/[1,1+m] families) as two sources of one target, two targets of one source and the operands of one call, both orders A-B-A; axis lengths c / c+2^8 / c+2^16; permuted dims; same shapes with permuted / shifted values; refused-then-accepted calls; seeded random interleavings; and an A-B-A re-run of the previous case after EVERY case (STATE-DIVERGENCE). Huge: targets of 16 384 .. 196 611 elements (lib huge_shapes + counts at 2^14 / 2^15 / 2^16 +-1, axes 65 535 / 65 536 / 65 537, ranks 1..5) x sources_of x broadcast_to / zip / broadcast / broadcast_arrays, equal shapes, added leading axis; the full model answer where the list-backed model takes < 0.2 s (quick) / 2 s (thorough), otherwise `n` lines: the model answers the result shape (broadcastShape / commonBroadcastShape) and the values are compared with a harness-native odometer reference, which is itself compared with the full model answer on every other broadcast / zip / broadcast_to / broadcast_arrays case of the run where it has an opinion (count in the oracle_report sample; the run fails if fewer than 1000). Every axis length 1..300 in trailing / inner position; counts 31, 37, 1000, 1001, primes, 49; the same object on both sides of broadcast / zip (i64 and the f64 NaN / -0.0 image); ranks 5..8; lists of 5..70 arrays. distinct = distinct case lines; non-trivial = at least one operand stretched along an axis of target length > 1 (seq: in some member)" });
+    harness_main(Spec { prop: "C03", gen, exec, nontrivial, hang_secs: 60,
+        rule: "exhaustive: all ordered pairs of shapes rank<=3 len<=3 (39^2) for broadcast, zip, broadcast_to (source,target) and 2-lists of broadcast_arrays; triples: 4000 sampled (quick) / all 39^3 (thorough); stretch targets up to rank 6; seeded random rank<=4 len<=5 mostly-compatible pairs/triples; zero-length shapes (refused on aligned axes, accepted as added leading target axes). The crate-internal helpers broadcast_h2 / broadcast_h3 (ops h2 / h3) are observed through the public pure lifts `multiply` (string x count) and `ljust` (string x width x fill char) with per-position-recoverable operands, so the result text gives back the two / three stretched operands: all ordered pairs rank<=3 len<=3 for h2; triples: every ordered pair with a sampled third operand in a sampled position + 1500 sampled (quick) / all 39^3 (thorough); rank-0 operands; random rank<=4 len<=5. Tag arrays (distinct integers; k-th operand offset 1000k). Robustness streams: big targets (lib big_shapes, every axis length 7..17 in leading/inner/trailing position, targets above 4096 elements of rank 1..6 such as [70,70], [3,41,41], [65,64], [4097], [8192]; seeded random targets of 300..6000 elements, thorough ..12000) x every source with one axis made a unit axis / only one axis kept / leading axes dropped / the one-element array, complementary unit-axis pairs in both orders, 2- and 3-lists, an added leading axis on the big array, the equal-count reshape arm and a non-stretchable neighbour, for broadcast_to, broadcast, zip, broadcast_arrays; h2 / h3 on targets above 4096 elements; every ordered pair of 13 zero-length shapes and 9 small ones (at least one zero-length) for all six ops; value-class sources (every 0/1 pattern of up to 4 elements = -0.0/+0.0 under the f64 image, mixtures with NaN, subnormals, 2^53+2). EVERY broadcast / zip / broadcast_to / broadcast_arrays case is executed on the plain Array<i64> receiver (the compared answer), a second time, on the Result receiver (Ok(array).broadcast / .broadcast_to, <Result<..>>::broadcast_arrays), and on the u8, bool and two f64 images (tag 0 = -0.0; value classes mod 8; bit-wise; pairs: both components separately) - results of up to 600 elements also i8, u8 near 255, i64 beyond 2^53, u16, i32, f32, usize, String, all on both receivers; any divergence fails the case. PART 2: hidden state - `seq` lines (several calls on one thread, each compared with the model): shape pairs colliding under h*m+dim for m = 31, 33, 37, 131, 257 (lib collision_shape_pairs + [2,1]/[1,1+m] families) as two sources of one target, two targets of one source and the operands of one call, both orders A-B-A; axis lengths c / c+2^8 / c+2^16; permuted dims; same shapes with permuted / shifted values; refused-then-accepted calls; seeded random interleavings; and an A-B-A re-run of the previous case after EVERY case (STATE-DIVERGENCE). Huge: targets of 16 384 .. 196 611 elements (lib huge_shapes + counts at 2^14 / 2^15 / 2^16 +-1, axes 65 535 / 65 536 / 65 537, ranks 1..5) x sources_of x broadcast_to / zip / broadcast / broadcast_arrays, equal shapes, added leading axis; the full model answer where the list-backed model takes < 0.2 s (quick) / 2 s (thorough), otherwise `n` lines: the model answers the result shape (broadcastShape / commonBroadcastShape) and the values are compared with a harness-native odometer reference, which is itself compared with the full model answer on every other broadcast / zip / broadcast_to / broadcast_arrays case of the run where it has an opinion (count in the oracle_report sample; the run fails if fewer than 1000). Every axis length 1..300 in trailing / inner position; counts 31, 37, 1000, 1001, primes, 49; the same object on both sides of broadcast / zip (i64 and the f64 NaN / -0.0 image); ranks 5..8; lists of 5..70 arrays. PART 3: giant targets (`g` / `g2` lines; 10^6 and 2^20 < count <= 2.1 million; ranks 1..4; a stretched first / middle / last axis, added leading axes, a stretched axis above a kept axis above a stretched axis in rank 3 and 4 in both parities; extents that are and are not multiples of 64; broadcast_to, zip, broadcast with the complementary operand (both stretched), broadcast_arrays, and broadcast_h2 through its numeric lift `round` (op h2r: number tag x decimals tag, scalar function evaluated natively, bit-wise): 24 fixed + 2 seeded in the quick tier, the full product of 22 targets x every unit-axis mask of the source with and without its leading unit axes (about 345 cases) in the thorough tier; the model answers the result shape, the values are compared in place with the harness-native reference (never formatted), which is compared with the full model answer on every smaller broadcast / zip / broadcast_to / broadcast_arrays / h2 / h3 / h2r case of the run; then in turn the same call again / the Result receiver / the u8, 12-byte, 3-byte, f64 value-class image). Odd element layouts on EVERY case: Tuple3<i32,i32,i32> (12 bytes), Tuple3<u8,u8,u8> (3 bytes), Tuple2<String,i32> (32 bytes, not Copy), one of them in turn (results of up to 600 elements on both receivers). Value relations: constant sources, sources whose elements are all == but not identical under the f64 image (-0.0 / +0.0), and constant-but-for-the-first/last-element sources, for every small source shape of two or more elements against EVERY small target (all 39 shapes of rank <= 3, len <= 3 plus 8 more: accepted, shrinking, clashing, lower rank) through broadcast_to, and in turn as either operand of zip / broadcast / broadcast_arrays and as string / count / fill operand of h2 / h3; constant sources of 300 .. 4900 elements; h2r on all ordered pairs of small shapes. distinct = distinct case lines; non-trivial = at least one operand stretched along an axis of target length > 1 (seq: in some member)" });
 }
